@@ -607,6 +607,46 @@ class Fn:
                     out.add((a, label))
         return out
 
+    def filter_branches(self, start, effect, stops=()):
+        """Branch blocks between `start` and `effect` that can divert control away from `effect`:
+        switch blocks reachable from start (not through `stops`) from which effect is reachable, having at
+        least one outgoing edge from which effect is no longer reachable (without passing `stops`).
+        Catches disjunctive filters (`a || b`) that no single dominating edge reveals.
+        -> list of (block, [labels that keep effect reachable], [labels that lose it])"""
+        stops = set(stops)
+
+        def reach_from(b0):
+            seen = {b0}
+            dq = deque([b0])
+            while dq:
+                x = dq.popleft()
+                if x in stops and x != b0:
+                    continue
+                for y in self.succ[x]:
+                    if y not in seen:
+                        seen.add(y)
+                        dq.append(y)
+            return seen
+        fwd = reach_from(start)
+        out = []
+        cache = {}
+        for b in sorted(fwd):
+            t = self.blocks[b]["term"]
+            if t["k"] != "switch":
+                continue
+            if b in stops and b != start:
+                continue
+            keep, lose = [], []
+            for lab, s_ in self.succ_edges(b):
+                if self.blocks[s_]["term"]["k"] == "unreachable" and not self.blocks[s_]["stmts"]:
+                    continue  # exhaustive-match filler edge
+                if s_ not in cache:
+                    cache[s_] = effect in reach_from(s_) or s_ == effect
+                (keep if cache[s_] else lose).append(lab)
+            if keep and lose:
+                out.append((b, keep, lose))
+        return out
+
     def edge_region(self, a, label):
         """blocks that can only run after branch edge (a, label) was taken"""
         seen = {0}
@@ -637,6 +677,30 @@ class Fn:
 
     def conditions_text(self, b):
         return sorted(set(self.describe_cond(a, lab) for a, lab in self.control_conditions(b)))
+
+    def const_strs(self):
+        """all string constants mentioned in this body (operands of statements and call arguments)"""
+        out = []
+
+        def vis(op):
+            c = op_const(op)
+            if c and "str" in c:
+                out.append(c["str"])
+        for blk in self.blocks:
+            for st in blk["stmts"]:
+                rv = st.get("rv")
+                if not rv:
+                    continue
+                for key in ("op", "a", "b"):
+                    if key in rv and isinstance(rv[key], dict):
+                        vis(rv[key])
+                for o in rv.get("ops", []):
+                    vis(o)
+            t = blk["term"]
+            if t["k"] == "call":
+                for a in t["args"]:
+                    vis(a)
+        return out
 
     # operands referencing functions/closures anywhere (for call-graph over-approximation)
     def fn_refs(self):
